@@ -51,4 +51,50 @@ CHECKS["C19"] = {
     "note": "trusted base: TLC, Shortcode.tla, the independent dialect parser used to read the statement lists of returned parts",
     "technique": "TLC-enumerated inputs + call-trace validation against a TLA+ definition of the line format",
 }
+CHECKS["C05"] = {
+    "category": "translation_validation",
+    "text": "statement skeletons enumerated/sampled by TLC from Gen_C05 (atoms with distinguishable traces, all compound assignments on 32/64-bit "
+            "targets, if/else chains, for loops with data-dependent trip counts 0..8, nested loops, blocks, overlapping stores) are compiled in both "
+            "layouts and TLC compares the final locals, registers and memory with the C semantics for every low-byte value of the trip-count register",
+    "note": TB,
+    "technique": "TLC translation validation of generated statement programs",
+}
+CHECKS["C10"] = {
+    "category": "translation_validation",
+    "text": "Sorts.tla (mirror of rz_il_validate: operand widths, bool vs bit vector, ITE arms, local sort stability across all paths, register-write and "
+            "store widths, LET scoping, SEQN arity, call arguments, inlined callee bodies) is evaluated by TLC on every observed effect of the artefact "
+            "set: corpus parts, bundled sub-routines, generated programs mixing logical/comparison results with arithmetic; both layouts",
+    "note": TB + "; sort rules transcribed from Rizin's documentation (Rizin itself is not in the sandbox)",
+    "technique": "TLC evaluation of a TLA+ RzIL sort checker on observed compiler output",
+}
+CHECKS["C11"] = {
+    "category": "model_checking",
+    "text": "the emitted text of every artefact is read by an independent C-declaration reader and replayed statement by statement through the EmitC "
+            "state machine (declared once, declared before use, valid identifiers, known callees, hi/pkt in scope only if the needs-hi/needs-pkt flag or "
+            "the sub-routine prologue provides them); Meta.tla checks one getter per part, prototype form and uniqueness over all 2181 instructions",
+    "note": "trusted base: TLC, EmitC.tla, Meta.tla, the emitted-text reader (understands C syntax, not the golden layout)",
+    "technique": "trace validation of the emitted statement sequence against a TLA+ state machine",
+}
+CHECKS["C12"] = {
+    "category": "model_checking",
+    "text": "the same statement traces are validated against the ownership clauses of EmitC.tla: every pure/effect variable has exactly one un-DUP'ed use, "
+            "DUP only on pures, borrowed parameters at most one raw use, nothing initialised is left unconsumed",
+    "note": "trusted base: TLC, EmitC.tla, the emitted-text reader; counting is on the identifier level of the text as emitted",
+    "technique": "trace validation of the emitted statement sequence against a TLA+ ownership state machine",
+}
+CHECKS["C13"] = {
+    "category": "model_checking",
+    "text": "static half: Attrs!Attr(syntax tree) is compared by TLC with the reported attribute list of every accepted corpus part (300 instructions in "
+            "quick, all in thorough) and of generated programs; history half: Lifecycle.tla is model-checked for 'attributes are a function of the part' "
+            "and TLC-generated histories are replayed on real compiler instances (see C14)",
+    "note": "trusted base: TLC, Attrs.tla, the independent dialect parser",
+    "technique": "TLC evaluation of a TLA+ attribute function on independently parsed source + lifecycle replay",
+}
+CHECKS["C16"] = {
+    "category": "translation_validation",
+    "text": "both CodeFormat layouts of every artefact are executed by TLC from the same input states; final architectural state, all IL locals and the "
+            "reported attribute sets must coincide, and both must pass Sorts and EmitC",
+    "note": TB,
+    "technique": "TLC layout-versus-layout translation validation",
+}
 NOT_YET = {}
